@@ -13,6 +13,8 @@ package harness
 // oracle, `ibc=0/1` on the op line).
 
 import (
+	"crypto/sha256"
+	"encoding/binary"
 	"fmt"
 	"strings"
 	"testing"
@@ -91,6 +93,20 @@ func newIbcEnv(t *testing.T, nSeq int) *ibcEnv {
 	rp := a.RollappKeeper.GetParams(e.f.Ctx)
 	rp.MinSequencerBondGlobal = sdk.NewCoin(ibcDenom, math.NewIntFromUint64(1))
 	a.RollappKeeper.SetParams(e.f.Ctx, rp)
+	// chain configuration the test genesis lacks: bank metadata of the native denom (IRO liquidity denom)
+	if _, ok := a.BankKeeper.GetDenomMetaData(e.f.Ctx, ibcDenom); !ok {
+		a.BankKeeper.SetDenomMetaData(e.f.Ctx, banktypes.Metadata{Base: ibcDenom, Display: "dym", Name: "dym", Symbol: "DYM",
+			DenomUnits: []*banktypes.DenomUnit{{Denom: ibcDenom, Exponent: 0}, {Denom: "dym", Exponent: 18}}})
+	}
+	gp := a.GAMMKeeper.GetParams(e.f.Ctx)
+	allowed := false
+	for _, d := range gp.AllowedPoolCreationDenoms {
+		allowed = allowed || d == ibcDenom
+	}
+	if !allowed {
+		gp.AllowedPoolCreationDenoms = append(gp.AllowedPoolCreationDenoms, ibcDenom)
+		a.GAMMKeeper.SetParams(e.f.Ctx, gp)
+	}
 	// the production ante handler, built from the same options as app.go
 	txc := a.TxConfig()
 	ah, err := ante.NewAnteHandler(ante.HandlerOptions{
@@ -494,4 +510,11 @@ func (e *ibcEnv) fixCtx() {
 	h := e.f.Ctx.BlockHeader()
 	h.ProposerAddress = cons
 	e.f.Ctx = e.f.Ctx.WithBlockHeader(h)
+}
+
+// ibcTraceRng derives the generator of trace `tr` from the run seed through SHA-256 (hlib's
+// Fork() of consecutive seeds yields shifted copies of the same stream).
+func ibcTraceRng(seed uint64, tr int) *Rng {
+	h := sha256.Sum256([]byte(fmt.Sprintf("dymverif-ibc-trace-%d-%d", seed, tr)))
+	return NewRng(binary.BigEndian.Uint64(h[:8]))
 }
